@@ -58,6 +58,8 @@ def bfs(initial_hists: Iterable[tuple], events: Callable[[tuple, Any], Iterable[
                 frontier.clear()
                 res.capped = True
                 break
+            if viols:
+                continue      # the library and the reference disagree: nothing beyond this state is meaningful
             if key not in seen:
                 nh = hist + (ev,)
                 seen[key] = nh
